@@ -16,7 +16,7 @@ TXT = [inst("dlt_text", "c18_v3_text_" + n, tiers, d, "V3 canonical text + separ
 
 PROP = {
     "manifest": dict(
-        text="WITHOUT TEXT. V1 encode/decode agreement: both encoders (utils::payload_from_args in both byte orders; serde_verb_payload::Serializer, host order) -> real DltMessageArgIterator: k <= 2 (thorough 3) arguments of "
+        text="WITHOUT TEXT. V1 encode/decode agreement: both encoders (utils::payload_from_args in both byte orders; serde_verb_payload::Serializer, host order) -> real DltMessageArgIterator: k <= 2 arguments (3 arguments of symbolic kind run out of memory at 30 GB) of "
              "symbolic kind (bool, u8..u64, i8..i64, f32/f64 as raw bits, UTF-8/ASCII strings and raw bytes of 0..3 B) decode to exactly k arguments with the same type info and raw bytes, then None. V2 a payload cut at any point "
              "decodes to a prefix of the original arguments; on ARBITRARY payload bytes (<= 16 B: every truncation/corruption) each returned slice lies inside the payload and iteration terminates. "
              "NOT covered: the TEXT rendering (V3 of the design). A harness for the cheap part (bool / 8-bit / empty arguments, separator rule; harness/dlt_text.rs, kept unregistered) finishes in 30 s on a "
@@ -28,7 +28,7 @@ PROP = {
     "kf_roles": ["c18_empty_strg_rawd_no_length"],
     "functions": ["utils::payload_from_args", "serde_verb_payload::Serializer (serialize_bool/u8..u64/i8..i64/f32/f64/str/bytes/newtype_variant)", "serde_verb_payload::add_to_serializer",
                   "dlt::DltMessageArgIterator::next", "<&DltMessage as IntoIterator>::into_iter"],
-    "bounds": "<= 3 arguments, variable-length arguments <= 3 B, arbitrary payloads <= 16 B",
+    "bounds": "<= 2 arguments, variable-length arguments <= 3 B, arbitrary payloads <= 16 B",
     "stubs": [],
     "outside": ["DltMessage::payload_as_text / process_msg_arg_iter: all text rendering incl. the separator rule (see manifest text)",
                 "more than 3 arguments; strings longer than 3 bytes; VARI/FIXP/array/struct type infos (decoder returns None by design)"],
@@ -40,7 +40,6 @@ PROP = {
         inst(F, "c03_u2_arg_iter_any_12", Q, "arbitrary payload <= 12 B", "V2 slices inside payload, terminates", covers=2, timeout=2400),
         inst(F, "c18_v2_truncation_prefix", Q, "valid 2-argument payload cut at any point", "V2 decoded sequence is a prefix", covers=2, timeout=2400, mem_gb=24, cost=100),
         inst(F, "c18_v1_witness_empty_strg", Q, "empty raw argument followed by u8", "witness of known finding", kf_witness="c18_empty_strg_rawd_no_length"),
-        inst(F, "c18_v1_pfa_k3", T, "3 arguments, any kinds", "V1 payload_from_args -> iterator agreement", covers=2, timeout=3300, mem_gb=30, cost=300),
         inst(F, "c03_u2_arg_iter_any_16", T, "arbitrary payload <= 16 B", "V2 slices inside payload, terminates", covers=2, timeout=3000, mem_gb=24),
     ],
 }
